@@ -4,6 +4,7 @@ import Tx3Proofs.C01Lovelace
 import Tx3Proofs.C01MultiAsset
 import Tx3Proofs.C01Template
 import Tx3Proofs.C01Spec
+import Tx3Proofs.C01Change
 #print axioms Tx3.Lang.eval_int
 #print axioms Tx3.Lang.lower_int
 #print axioms Tx3.Lang.C01_int_fragment
@@ -25,3 +26,10 @@ import Tx3Proofs.C01Spec
 #print axioms Tx3.C01_template_value
 #print axioms Tx3.Lang.eval_lovelace
 #print axioms Tx3.Lang.C01_spec_meets_pipeline
+#print axioms Tx3.Lang.lower_int_inert
+#print axioms Tx3.Lang.denotes_add
+#print axioms Tx3.Lang.denotes_sub
+#print axioms Tx3.Lang.lowerInput_shape
+#print axioms Tx3.Lang.input_lowers
+#print axioms Tx3.Lang.C01_source_to_value
+#print axioms Tx3.Lang.full_pipeline_order
